@@ -1,6 +1,6 @@
 //verif:pkg .
 //verif:use servers_mcp
-//verif:bound sequential (one-step inductive): a tool / prompt / resource registry holding 0..2 entries with symbolic names (printable ASCII <= 4) plus one operation {register new or existing name, unregister, list, call/get/read of a present or absent name}; concurrent: register || {list, call, get, read} on each registry and register/unregister || list on notification-handler tables with 2 goroutines under the engine's happens-before race detector, each reported pair confirmed with go test -race
+//verif:bound sequential (one-step inductive): a tool / prompt / resource registry holding 0..2 entries with symbolic names (printable ASCII <= 4) plus one operation {register new or existing name, unregister, list, call/get/read of a present or absent name}; concurrent: register || {list, call, get, read} on each registry and register/unregister || list on notification-handler tables with 2 goroutines under the engine's happens-before race detector, each reported pair confirmed with go test -race; two concurrent registrations of the same new name (tools, prompts, resources) and unregister vs register of one tool under every schedule with <= 2 (thorough 3) preemptions at synchronisation operations, violations confirmed natively by holding the preempted goroutine at the recorded operation
 //verif:assume linearizability with more than two goroutines is outside the claim
 package mcp
 
@@ -266,5 +266,121 @@ func H_C12_notification_handlers_concurrent() {
 	}, func() {
 		srv.handleServerNotification(context.Background(), &JSONRPCNotification{JSONRPC: "2.0", Notification: Notification{Method: "n/a"}})
 	})
+	vReach("end")
+}
+
+// ---- concurrent: two registrations of the same new name under every schedule (preemption-bounded) ----
+
+func c12Explore(a, b func()) {
+	budget := 2
+	if vTier() == 1 {
+		budget = 3
+	}
+	done := make(chan struct{})
+	vSched(true, budget)
+	go func() {
+		a()
+		close(done)
+	}()
+	b()
+	<-done
+	vSched(false, 0)
+}
+
+// H_C12_resources_same_uri_twice: two goroutines register the same not-yet-registered URI (and a third entry
+// exists already): the registry lists it exactly once, in registration order, whatever the interleaving.
+func H_C12_resources_same_uri_twice() {
+	rm := newResourceManager()
+	h := func(tag string) resourceHandler {
+		return func(ctx context.Context, r *ReadResourceRequest) (ResourceContents, error) {
+			return TextResourceContents{URI: r.Params.URI, Text: tag}, nil
+		}
+	}
+	rm.registerResource(&Resource{URI: "first", Name: "first"}, h("first"))
+	c12Explore(func() { rm.registerResource(&Resource{URI: "shared", Name: "a"}, h("a")) },
+		func() { rm.registerResource(&Resource{URI: "shared", Name: "b"}, h("b")) })
+	out, _ := rm.handleListResources(context.Background(), &JSONRPCRequest{})
+	lr, ok := out.(ListResourcesResult)
+	vAssert("list-result", ok)
+	vAssert("listed-once-in-order", vAnd(len(lr.Resources) == 2, len(lr.Resources) == 2 && lr.Resources[0].URI == "first" && lr.Resources[1].URI == "shared"))
+	if len(lr.Resources) == 2 {
+		// the entry is one of the two registrations, not a mixture
+		vAssert("entry-not-torn", vOr(lr.Resources[1].Name == "a", lr.Resources[1].Name == "b"))
+	}
+	vReach("end")
+}
+
+func H_C12_tools_same_name_twice() {
+	tm := newToolManager()
+	tm.registerTool(NewTool("first"), c12ToolHandler("first"))
+	c12Explore(func() { tm.registerTool(NewTool("shared"), c12ToolHandler("a")) },
+		func() { tm.registerTool(NewTool("shared"), c12ToolHandler("b")) })
+	out, _ := tm.handleListTools(context.Background(), &JSONRPCRequest{}, nil)
+	lr, ok := out.(ListToolsResult)
+	vAssert("list-result", ok)
+	var listed []string
+	for _, t := range lr.Tools {
+		listed = append(listed, t.Name)
+	}
+	vAssert("listed-once", c12Names(map[string]bool{"first": true, "shared": true}, listed))
+	vAssert("order-slice-has-no-duplicate", c12Names(map[string]bool{"first": true, "shared": true}, tm.toolsOrder))
+	text, served := c12CallTool(tm, "shared")
+	vAssert("one-of-the-two-handlers", vAnd(served, text == "a" || text == "b"))
+	vReach("end")
+}
+
+func H_C12_tools_register_unregister_race() {
+	tm := newToolManager()
+	tm.registerTool(NewTool("first"), c12ToolHandler("first"))
+	tm.registerTool(NewTool("x"), c12ToolHandler("x0"))
+	c12Explore(func() { tm.unregisterTools("x") },
+		func() { tm.registerTool(NewTool("x"), c12ToolHandler("x1")) })
+	out, _ := tm.handleListTools(context.Background(), &JSONRPCRequest{}, nil)
+	lr, _ := out.(ListToolsResult)
+	n := 0
+	for _, t := range lr.Tools {
+		if t.Name == "x" {
+			n++
+		}
+	}
+	vAssert("listed-at-most-once", n <= 1)
+	_, served := c12CallTool(tm, "x")
+	vAssert("listed-iff-callable", served == (n == 1))
+	cnt := 0
+	for _, o := range tm.toolsOrder {
+		if o == "x" {
+			cnt++
+		}
+	}
+	vAssert("order-slice-consistent", cnt == n)
+	vReach("end")
+}
+
+func H_C12_prompts_same_name_twice() {
+	pm := newPromptManager()
+	reg := func(tag string) func() {
+		return func() {
+			pm.registerPrompt(&Prompt{Name: "shared", Description: tag}, func(ctx context.Context, r *GetPromptRequest) (*GetPromptResult, error) {
+				return &GetPromptResult{Description: tag}, nil
+			})
+		}
+	}
+	c12Explore(reg("a"), reg("b"))
+	out, _ := pm.handleListPrompts(context.Background(), &JSONRPCRequest{})
+	lr, ok := out.(*ListPromptsResult)
+	vAssert("list-result", ok)
+	if ok {
+		vAssert("listed-once", len(lr.Prompts) == 1)
+		if len(lr.Prompts) == 1 {
+			req := &JSONRPCRequest{JSONRPC: "2.0", ID: 1, Request: Request{Method: MethodPromptsGet}, Params: map[string]interface{}{"name": "shared"}}
+			res, _ := pm.handleGetPrompt(context.Background(), req)
+			gr, served := res.(*GetPromptResult)
+			vAssert("served", served)
+			if served {
+				// atomic replacement: the listed descriptor and the handler that runs belong to the same registration
+				vAssert("descriptor-and-handler-from-one-registration", gr.Description == lr.Prompts[0].Description)
+			}
+		}
+	}
 	vReach("end")
 }
